@@ -207,6 +207,18 @@ where
         self.parser.get_dispatcher().finish(chunk)
     }
 
+    /// Verification hook: real capacity of the parsing buffer, in bytes.
+    #[cfg(feature = "_verif_hooks")]
+    pub fn verif_buffer_capacity(&self) -> usize {
+        self.buffer.verif_capacity()
+    }
+
+    /// Verification hook: read access to the transform controller.
+    #[cfg(feature = "_verif_hooks")]
+    pub fn verif_controller(&mut self) -> &C {
+        self.parser.get_dispatcher().verif_controller()
+    }
+
     #[cfg(feature = "_integration_test")]
     #[allow(private_interfaces)]
     pub fn parser(&mut self) -> &mut Parser<Dispatcher<C, O>> {
